@@ -38,6 +38,9 @@ pub enum Dev {
     ApprovedCaseOrSpaceVariant(u8),
     /// approved for the account-kind address that carries the same 32 bytes as the app's contract address
     ApprovedForAddressKindTwin,
+    /// approved under the chain of the case, but the delivery names another source chain ("ethereum" - which the
+    /// token-service application trusts as an origin - or, if that is the case's chain, "avalanche")
+    DeliveredNamingOtherChain,
 }
 
 /// (chain, id, src) with one field put in upper case / given a space
@@ -62,7 +65,8 @@ fn case_space_variant(chain: &str, id: &str, src: &str, k: u8) -> (String, Strin
 
 const SEPS: [&str; 8] = ["", "_", ":", "-", "/", "|", ".", " "];
 
-const DEVS: [Dev; 32] = [
+const DEVS: [Dev; 33] = [
+    Dev::DeliveredNamingOtherChain,
     Dev::ApprovedForAddressKindTwin,
     Dev::None,
     Dev::NeverApproved,
@@ -131,10 +135,10 @@ impl Property for C16 {
         "C16"
     }
     fn rule(&self) -> &'static str {
-        "proptest single cases: app (the shipped example / a minimal harness app that calls the interface's validate_message helper and aborts on error / in a quarter of the cases the token service itself, delivered a hub message that mints a deployed token) x delivery (chain, id, source address from small pools incl. empty strings; payload 0..600 bytes) x at most one deviation (never approved; approved for another app / for the account-kind address with the app's 32 bytes / another payload / source address / id / chain; delivered twice; additionally approved for the other app; approval re-submitted, or the id re-approved with other content, after delivery; approved under another split of the same characters between chain and id, for 8 separators; approval and delivery differing only in letter case or a trailing space of chain / id / source address, in either direction) x 0..150 days passing between approval and delivery and between the first delivery and whatever is tried afterwards, optionally with a signer rotation (ordinary or operator-bypass) after the first delivery, later approvals being signed by the new set, and optionally with a third party calling the gateway's validate_message for the delivered id in between (ledger sequence and clock advanced; temporary entries of that age are gone). All 2x32 app x deviation combinations are also enumerated as fixed cases. Oracle: the app's effect (its executed event / counter) and the gateway's transition to executed happen iff the gateway held a matching unexecuted approval naming this app; otherwise the delivery fails, nothing is emitted and the ledger snapshot is identical. non-trivial = a deviation is present; distinct by Debug hash"
+        "proptest single cases: app (the shipped example / a minimal harness app that calls the interface's validate_message helper and aborts on error / in a quarter of the cases the token service itself, delivered a hub message that mints a deployed token) x delivery (chain, id, source address from small pools incl. empty strings; payload 0..600 bytes) x at most one deviation (never approved; approved for another app / approved under the case's chain but delivered naming another source chain / for the account-kind address with the app's 32 bytes / another payload / source address / id / chain; delivered twice; additionally approved for the other app; approval re-submitted, or the id re-approved with other content, after delivery; approved under another split of the same characters between chain and id, for 8 separators; approval and delivery differing only in letter case or a trailing space of chain / id / source address, in either direction) x 0..150 days passing between approval and delivery and between the first delivery and whatever is tried afterwards, optionally with a signer rotation (ordinary or operator-bypass) after the first delivery, later approvals being signed by the new set, and optionally with a third party calling the gateway's validate_message for the delivered id in between (ledger sequence and clock advanced; temporary entries of that age are gone). All 2x33 app x deviation combinations are also enumerated as fixed cases. Oracle: the app's effect (its executed event / counter) and the gateway's transition to executed happen iff the gateway held a matching unexecuted approval naming this app; otherwise the delivery fails, nothing is emitted and the ledger snapshot is identical. non-trivial = a deviation is present; distinct by Debug hash"
     }
     fn fixed_is_exhaustive(&self) -> Option<&'static str> {
-        Some("app x deviation matrix (2 x 32) enumerated completely with one fixed delivery; deliveries sampled")
+        Some("app x deviation matrix (2 x 33) enumerated completely with one fixed delivery; deliveries sampled")
     }
     fn cases(&self, tier: Tier) -> u64 {
         tier.pick(20000, 200000)
@@ -227,6 +231,7 @@ impl Property for C16 {
             Dev::NeverApproved => vec![],
             Dev::ApprovedForOtherApp => vec![mk(&other_app, chain, id, src, &payload)],
             Dev::ApprovedForAddressKindTwin => vec![mk(&kind_twin(&env, &app), chain, id, src, &payload)],
+            Dev::DeliveredNamingOtherChain => vec![mk(&app, chain, id, src, &payload)],
             Dev::ApprovedOtherPayload => vec![mk(&app, chain, id, src, &p2)],
             Dev::ApprovedOtherSourceAddress => vec![mk(&app, chain, id, &format!("{}x", src), &payload)],
             Dev::ApprovedOtherId => vec![mk(&app, chain, &format!("{}x", id), src, &payload)],
@@ -277,6 +282,15 @@ impl Property for C16 {
         let (chain, id, src): (&str, &str, &str) = match &delivered_variant {
             Some((c, i, s)) => (c, i, s),
             None => (chain, id, src),
+        };
+        let chain: &str = if case.dev == Dev::DeliveredNamingOtherChain {
+            if chain == "ethereum" {
+                "avalanche"
+            } else {
+                "ethereum"
+            }
+        } else {
+            chain
         };
         let client = AxelarExecutableClient::new(&env, &app);
         env.set_auths(&[]);
